@@ -253,7 +253,20 @@ class Interp:
             self.block(st.orelse, env)
             return
         if isinstance(st, ast.While):
-            self.fail(st, "while loop")
+            try:
+                while self.truth(self.eval(st.test, env), st.test):
+                    try:
+                        self.block(st.body, env)
+                    except _Continue:
+                        continue
+            except _Break:
+                return
+            self.block(st.orelse, env)
+            return
+        if isinstance(st, ast.Assert):
+            if not self.truth(self.eval(st.test, env), st.test):
+                raise ModelRaise("AssertionError")
+            return
         if isinstance(st, ast.Return):
             raise _Return(self.eval(st.value, env) if st.value is not None else None)
         if isinstance(st, ast.Raise):
@@ -409,6 +422,8 @@ class Interp:
             return self.call(e, env)
         if isinstance(e, ast.IfExp):
             return self.eval(e.body if self.truth(self.eval(e.test, env), e.test) else e.orelse, env)
+        if isinstance(e, ast.GeneratorExp) and len(e.generators) == 1:
+            return self.eval(ast.ListComp(elt=e.elt, generators=e.generators), env)
         if isinstance(e, ast.ListComp) and len(e.generators) == 1 and not e.generators[0].is_async:
             gen = e.generators[0]
             it = self.eval(gen.iter, env)
@@ -468,6 +483,27 @@ class Interp:
             if nm in IGNORED_CALLS:
                 return None
             args = [self.eval(a, env) for a in e.args]
+            ce = self.const_env.get(nm)
+            if isinstance(ce, tuple) and ce and ce[0] == "class":
+                if self.construct is None:
+                    self.fail(e, f"construction of {nm}")
+                return self.construct(ce[1], args, kwargs)
+            if isinstance(ce, tuple) and ce and ce[0] == "pyfunc":
+                return ce[1](*args, **kwargs)
+            if nm in ("any", "all") and len(args) == 1:
+                return (any if nm == "any" else all)(self.truth(x, e) for x in args[0])
+            if nm in ("max", "min", "sum") and args and all(isinstance(x, (int, float)) and not isinstance(x, bool) for x in (args[0] if len(args) == 1 and isinstance(args[0], (list, tuple)) else args)):
+                seq = args[0] if len(args) == 1 and isinstance(args[0], (list, tuple)) else args
+                if nm != "sum" and not seq:
+                    raise ModelRaise("ValueError(empty sequence)")
+                return {"max": max, "min": min, "sum": sum}[nm](seq)
+            if nm == "isinstance" and len(args) == 2:
+                o, c = args
+                cs = c if isinstance(c, tuple) and c and not (isinstance(c[0], str)) else (c,)
+                for k in cs:
+                    if isinstance(k, tuple) and k and k[0] == "class" and isinstance(o, Obj) and o._cls is not None and k[1] in self.prog.mro(o._cls):
+                        return True
+                return False
             if nm == "set":
                 return set(args[0]) if args else set()
             if nm == "frozenset":
@@ -502,7 +538,7 @@ class Interp:
                     return tgt[1](*args)
                 if kind == "class":  # cd.MDF_X()
                     if self.construct is not None:
-                        return self.construct(tgt[1])
+                        return self.construct(tgt[1], args, kwargs)
                     return Obj(tgt[1], tgt[1].name, **{"msg_type": None})
                 if kind == "clsattr" and tgt[2] in ("from_buffer", "from_buffer_copy"):
                     # view of a received payload: the frame itself, provided the viewing class starts with msg_type
